@@ -431,3 +431,31 @@ def gen_c13_suppress(rng: random.Random, sid: str, thorough: bool = False) -> di
     steps.append({'op': 'at', 't': bs + 16000})
     return with_group(rng, {'id': sid, 'n1': n1, 'n2': n2, 'seed': rng.randint(0, 10 ** 9), 'steps': steps,
                             'rand': {'first': r, 'tc': 437}})
+
+
+def gen_c13_history(rng: random.Random, sid: str, thorough: bool = False) -> dict:
+    """The question history across its periodic clean-up: a question heard, another question heard after it, the first one heard
+    again (its entry is renewed in place) -- then the 10 s clean-up drops the second, expired entry, and the browser's own QM
+    question for the first falls due less than a second after its last sighting: it must still be suppressed."""
+    n1, n2 = 8, 2
+    r = rng.randint(20, 120)
+    delta = rng.choice([100, 200, 500])
+    k10 = rng.choice([10000, 20000])
+    bs = k10 - 1000 + delta - r                     # the browser's second start-up query (QM) is due at k10 + delta
+    due1 = bs + r + 1000
+    gap = rng.choice([g for g in (300, 800, 998) if g > delta])
+    a = due1 - rng.choice([4800, 3000])
+    b = a + rng.choice([300, 600])
+    c = due1 - gap
+    steps: List[dict] = [{'op': 'at', 't': 0}, {'op': 'reg', 'id': 1}, {'op': 'reg', 'id': n1 + 1}]
+    evs: List[Tuple[int, dict]] = [
+        (a, {'op': 'query', 'types': [T1], 'qu': False, 'qid': 1, 'ka': [], 'sp': 0, 'src': '10.0.0.31'}),
+        (b, {'op': 'query', 'types': [T2], 'qu': False, 'qid': 2, 'ka': [], 'sp': 0, 'src': '10.0.0.32'}),
+        (bs, {'op': 'bstart', 'types': [T1], 'delay': 10000, 'forced': 'none'}),
+        (c, {'op': 'query', 'types': [T1], 'qu': False, 'qid': 3, 'ka': [], 'sp': rng.randint(0, 2), 'src': '10.0.0.31'}),
+    ]
+    evs.sort(key=lambda x: x[0])
+    for (tt, st) in evs:
+        steps += [{'op': 'at', 't': tt}, st]
+    steps.append({'op': 'at', 't': bs + 16000})
+    return {'id': sid, 'n1': n1, 'n2': n2, 'seed': rng.randint(0, 10 ** 9), 'steps': steps, 'rand': {'first': r, 'tc': 437}}
